@@ -51,6 +51,8 @@ func H_C16_segment() {
 			rm, e3 := s2.NewSearch().WithMetadata(Eq("c", "x")).WithK(10).Execute()
 			vAssert(e3 != nil || len(rm) == 0, what+"-segment-contributes-nothing-to-metadata-search")
 		}
+		rv2, ev2 := s2.NewSearch().WithVector([]float32{1}).WithK(10).Execute()
+		vAssert(ev2 != nil || len(rv2) == 0, what+"-segment-contributes-nothing-to-a-second-vector-search")
 		vAssert(s2.Close() == nil, "close-ok")
 	}
 	if vChoose("missing", 2) == 1 {
@@ -181,7 +183,31 @@ func H_C16_truncate() {
 	dst := vStreamFresh(kind)
 	_, rerr := dst.ReadFrom(buf)
 	vAssert(rerr != nil, "strict-prefix-is-rejected")
+	vC16StillEmpty(kind, dst)
 	vCover("ran")
+}
+
+// never half-loaded: after a rejected read the receiver holds none of the stream's documents (for the kinds
+// that assign their state only after a full decode: flat, hnsw, ivf, pq, bm25, metadata)
+func vC16StillEmpty(kind int, dst vSer) {
+	switch x := dst.(type) {
+	case *BM25SearchIndex:
+		r, _ := x.NewSearch().WithQuery("fox").WithK(0).Execute()
+		vAssert(len(r) == 0, "rejected-read-leaves-the-receiver-empty")
+	case *RoaringMetadataIndex:
+		r, _ := x.NewSearch().Execute()
+		vAssert(len(r) == 0, "rejected-read-leaves-the-receiver-empty")
+	case VectorIndex:
+		if kind == vSIVFPQ {
+			return
+		}
+		ids, _ := vStoredIDs(x)
+		vAssert(len(ids) == 0, "rejected-read-leaves-the-receiver-empty")
+		if x.Trained() {
+			r, _ := x.NewSearch().WithQuery([]float32{1, 0}).WithK(0).WithNProbes(0).Execute()
+			vAssert(len(r) == 0, "rejected-read-leaves-the-receiver-empty")
+		}
+	}
 }
 
 func H_C16_truncate_hybrid() {
